@@ -219,6 +219,50 @@ def session(case, ctx):
         s.finish()
 
 
+long_case = st.fixed_dictionaries({"proto": st.sampled_from(net.PROTOS), "n1": st.integers(257, 700), "n2": st.sampled_from([0, 0, 3, 260, 300]),
+                                   "sizes": st.lists(st.integers(1, 40), min_size=1, max_size=4), "bufs": _BUFS, "seed": st.integers(0, 1 << 30),
+                                   "first": st.sampled_from(["c", "s"])})
+
+
+@P.sub("long", long_case, quick=48, thorough=2000, chunk=3)
+def long_connection(case, ctx):
+    """connections that carry several hundred records in each direction (record sequence numbers beyond one byte)"""
+    proto = case["proto"]
+    sh = shim()
+    sh.freeze_time(pki.T0)
+    ch, files = _pki(proto, 0, "server")
+    s = net.Session(ctx.variant, proto, files, mutual=False, seed=case["seed"])
+    try:
+        rc, rs = s.start()
+        ctx.check(rc[1] == "ok" and rs[1] == "ok", "endpoint set-up failed: client %s server %s" % (rc, rs), "setup")
+        hc, hs = s.handshake()
+        if hc[0] == "timeout" or hs[0] == "timeout":
+            ctx.note("inconclusive-timeout"); return
+        ctx.check(hc[1] == 1 and hs[1] == 1, "%s handshake between honest peers failed: client ret=%s server ret=%s" % (proto, hc[1], hs[1]), "handshake/%s/server-auth" % proto)
+        eps = {"c": s.client, "s": s.server}
+        a = case["first"]; b = "s" if a == "c" else "c"
+        total = 0
+        for who, peer, nrec, tag in ((a, b, case["n1"], "x"), (b, a, case["n2"], "y"), (a, b, 5, "z")):
+            if not nrec:
+                continue
+            sizes = case["sizes"]
+            nbytes = sum(sizes[i % len(sizes)] for i in range(nrec))
+            data = _data(nbytes, "%d/long/%s" % (case["seed"], tag))
+            eps[who].call("send_many", data, sizes)
+            r2 = eps[peer].do("recv_n", nbytes, case["bufs"], timeout=120.0)
+            r = eps[who].result(timeout=120.0)
+            if r[0] == "timeout" or r2[0] == "timeout":
+                ctx.note("inconclusive-timeout"); return
+            ctx.check(r[1] == 1 and r[2] == nbytes, "%s: write #%d of %d small writes failed: ret=%s after %d bytes" % (proto, r[3], nrec, r[1], r[2]), "long/%s/write" % proto)
+            ctx.check(r2[1] is None and r2[2] == data, "%s: after %d records in one direction the data stops arriving intact: %s, %d of %d bytes equal" %
+                      (proto, nrec, "read failed %s" % (r2[1],) if r2[1] is not None else "content differs",
+                       next((i for i in range(min(len(r2[2]), nbytes)) if r2[2][i] != data[i]), min(len(r2[2]), nbytes)), nbytes), "long/%s/stream" % proto)
+            total += nrec
+        ctx.case(nontrivial=True, classes=[proto, "records>=%d" % (256 * (total // 256))], ident=case, sample=case)
+    finally:
+        s.finish()
+
+
 hs_case = st.fixed_dictionaries({"proto": st.sampled_from(net.PROTOS), "mutual": st.booleans(), "seed": st.integers(0, 1 << 40)})
 
 
